@@ -155,8 +155,9 @@ CHECKS["C07"] = dict(
     text="Machine-checked proof (Coq): for EVERY dataset tree (any depth, width, rank, name length) whose names are in quoted form, "
          "the DDS parser model applied to the DDS printer model returns exactly the declared tree (kinds, names, order, element types, "
          "printed shapes and dimension names); printing the parsed tree reproduces the text exactly when Sequence members are scalars, "
-         "and provably not otherwise (refutation witness = known finding); any dimension list (named / anonymous / mixed) parses to the "
-         "shape and names it shows. Printer and parser models are compared with responses/dds.py and parsers/dds.py on generated "
+         "and provably not otherwise (refutation witness = known finding); a DDS text in ANY layout of the grammar (free white space after "
+         "every token, keywords and type words in any letter case, Url / Int / UInt, named or anonymous dimensions with any decimal "
+         "spelling) parses to exactly the dataset it declares. Printer and parser models are compared with responses/dds.py and parsers/dds.py on generated "
          "trees, reference-rendered foreign-style texts (Url, anonymous dims, mixed-case keywords, free layout) and mutated texts; "
          "the parsed trees are also compared with the abstract specs directly.",
     note=TB + "ASCII texts (Python's Unicode-aware \\w, \\d, lstrip modelled by their ASCII restrictions); numpy dtype char -> DAP2 type "
